@@ -99,21 +99,38 @@ class Net:
         return "server" if who == "client" else "client"
 
     # -- application actions
-    def send(self, who, length, retry, with_cb=True, fill=None, api=False):
+    def send(self, who, length, retry, with_cb=True, fill=None, api=False, raises=0):
+        """raises (optional, see connsim): the user callback raises after recording its invocation"""
         mid = self.next_id
         self.next_id += 1
         tag = b"%08d|" % mid
         body = fill if fill is not None else bytes((mid * 7 + i) % 251 for i in range(max(0, length - len(tag))))
         payload = (tag + body)[:length] if length >= len(tag) else (b"%d" % mid)[-length:] if length else b""
         cbid = mid if with_cb else None
-        outs = self.ep(who).apply(("sendg", payload, cbid) if (api and retry == -1) else ("send", payload, retry, cbid))
-        rec = {"payload": payload, "retry": retry, "time": self.t, "cb": cbid, "len": length,
+        ev = ("sendg", payload, cbid) if (api and retry == -1) else ("send", payload, retry, cbid)
+        if raises:
+            ev = ev + (raises,)
+        outs = self.ep(who).apply(ev)
+        rec = {"payload": payload, "retry": retry, "time": self.t, "cb": cbid, "len": length, "raises": raises,
                "accepted": not any(o[0] == 3 for o in outs) and self.ep(who).impl.conn.status.value == 2}
         self.sent[who][mid] = rec
         for o in outs:
             if o[0] == 3:
                 self.raised.append((self.t, who, "send", o[1], length))
         return mid
+
+    def disconnect(self, who):
+        """(optional) the application closes the connection: UdpClient.disconnect() / the server-side kick
+        ServerClientConnection.disconnect()"""
+        return self.ep(who).apply(("disc",))
+
+    def setmtu(self, mtu):
+        """(optional) Packet.setMTU(mtu) while both connections exist (process-wide class attributes): logged in
+        both endpoint histories; the histories must then be replayed with unit conn_run_mtu (check_models does)"""
+        for e in (self.A, self.B):
+            e.apply(("setmtu", mtu))
+        self.mtu = mtu
+        self.mtu_changed = True
 
     def _note(self, who, outs):
         for o in outs:
@@ -209,7 +226,32 @@ class Net:
     def check_models(self):
         out = []
         for e in (self.A, self.B):
+            if getattr(self, "mtu_changed", False):
+                # self.env is the environment the session STARTED with; the [9, env'] events carry the changes
+                d = check_model_mtu(self.run, e, self.env, list(e.seq0) if e.seq0 is not None else [0, 0])
+                if d:
+                    out.append(d)
+                continue
             d = e.check_model(self.run, self.env)
             if d:
                 out.append(d)
         return out
+
+
+def check_model_mtu(run, e, env, seq):
+    """replay an endpoint history that contains setmtu events on unit conn_run_mtu"""
+    init = [1 if e.role == "server" else 0, (e.key if (e.established and e.key is not None) else -1),
+            2 if e.established else 4, e.now0 if e.established else -1, seq[0], seq[1]]
+    reply = run.model.call("conn_run_mtu", [env, init, e.mevs, 1 if e.snap else 0])
+    for n, i in enumerate(e.index):
+        a = e.itrace[n]
+        b = [S.canon(reply[i][0]), reply[i][1]]
+        if a[0] != b[0]:
+            return {"endpoint": e.role, "event": n, "ev": lib.jsonable(e.events[n])[:3], "what": "outputs",
+                    "impl": lib.jsonable(a[0])[:6], "model": lib.jsonable(b[0])[:6]}
+        if a[1] is not None and a[1] != b[1]:
+            diff = [j for j, (x, y) in enumerate(zip(a[1], b[1])) if x != y]
+            return {"endpoint": e.role, "event": n, "ev": lib.jsonable(e.events[n])[:3],
+                    "what": "state fields %s" % diff,
+                    "impl": lib.jsonable([a[1][j] for j in diff])[:4], "model": lib.jsonable([b[1][j] for j in diff])[:4]}
+    return None
